@@ -8,7 +8,8 @@
 (*              spec; empty for driver cases)                              *)
 (*     demanded: the real encoder's literal (EmitASCII off/on) read back   *)
 (*     by the real decoder gives b (back0, back1; through a prototext     *)
-(*     bytes field: pt0, pt1; through text.UnmarshalString: ustr); the     *)
+(*     bytes field: pt0, pt1; through a string field when b is UTF-8:      *)
+(*     pts0; through text.UnmarshalString: ustr); the                      *)
 (*     ASCII output is printable (ascii1, ptascii1); every literal of lits *)
 (*     is decoded to b by the real decoder (dec).                          *)
 (*     trace direction in addition: the *specification's* decoder applied  *)
@@ -45,6 +46,7 @@ Expect(e) ==
   CASE e.op = "str" ->
          [back0 |-> e.b, back1 |-> e.b, pt0 |-> e.b, pt1 |-> e.b, ustr |-> e.b,
           ascii1 |-> TRUE, ptascii1 |-> TRUE, dec |-> [k \in 1..Len(e.lits) |-> e.b]]
+         @@ (IF ValidUtf8(e.b) THEN [pts0 |-> e.b] ELSE [ascii1 |-> TRUE])     \* a string field only promises UTF-8 content
     [] e.op = "lit" ->
          LET r == LitValue(e.s)  f == FirstLiteral(e.s) IN
          [nopanic |-> TRUE]
